@@ -63,6 +63,8 @@ def conc(model, v, seen=None):
                 out.update(v.abstract.concretise(model, lambda x: conc(model, x, seen)))
             except Exception:
                 pass
+        for k, x in (v.sym_items or []):
+            out[conc(model, k, seen)] = conc(model, x, seen)
         for k, (x, p) in v.entries.items():
             if p is True or z3.is_true(zval(model, p)):
                 out[conc(model, k, seen) if isinstance(k, (Sym, tuple)) else k] = conc(model, x, seen)
